@@ -171,6 +171,8 @@ func runClient(t *byteTable, b *clBeh, seg func(n int) []int) (o clObs) {
 		switch st.O {
 		case "transport":
 			return nil, errDial
+		case "transport_ctx":
+			return nil, fmt.Errorf("transport deadline: %w", context.DeadlineExceeded)
 		case "cancel_do":
 			cancel()
 			return nil, ctx.Err()
@@ -183,6 +185,8 @@ func runClient(t *byteTable, b *clBeh, seg func(n int) []int) (o clObs) {
 				rd.end = io.EOF
 			case "error":
 				rd.end = errBoom
+			case "errctx":
+				rd.end = context.DeadlineExceeded
 			case "cancel":
 				rd.end = context.Canceled
 				rd.onEnd = cancel
@@ -232,6 +236,9 @@ func errClassOK(err error, class string) bool {
 	switch class {
 	case "transport":
 		return errors.Is(err, errDial)
+	case "transport_ctx", "errctx":
+		var ce *sse.ConnectionError
+		return errors.As(err, &ce) && errors.Is(err, context.DeadlineExceeded)
 	case "eof":
 		return errors.Is(err, io.EOF) && !errors.Is(err, sse.ErrUnexpectedEOF)
 	case "unexpected_eof":
